@@ -203,14 +203,15 @@ def generation_order(ctx: Ctx):
               why_bad=f"returns {flow.dump(ps[0].value)[:200] if ps else '?'}", construct="generate_instructions:order")
     aig = repo.func(IGO, "InstructionGenerationResult.apply_instruction_generator")
     adi = repo.func(IGO, "InstructionGenerationResult.add_driver_instructions")
-    for fn, lam in ((aig, "lambda acc, i: DictOps.add_to_stack_dict(acc, i.vehicle_id, i)"),
-                    (adi, "lambda acc, i: DictOps.add_to_stack_dict(acc, i.vehicle_id, i) if i else acc")):
+    for fn, step in ((aig, "DictOps.add_to_stack_dict(ACC, X.vehicle_id, X)"),
+                     (adi, "DictOps.add_to_stack_dict(ACC, X.vehicle_id, X) if X else ACC")):
         found = False
+        folds = rules.recognise_folds(fn)  # reduce(...) or the equivalent accumulator loop, any spelling of the reducer
         for p in flow.paths(fn.node):
             if p.kind != "return":
                 continue
-            for c in flow.calls_in(p.value, "reduce"):
-                if c.args and flow.same(c.args[0], flow.pat(lam)) and len(c.args) >= 3 and flow.dump(c.args[2]) == "self.instruction_stack":
+            for F, XS, INIT in folds:
+                if flow.dump(rules.reducer_expr(repo, fn, F)) == step and flow.dump(INIT) == "self.instruction_stack":
                     found = True
             kw = {k.arg for k in p.value.keywords} if isinstance(p.value, ast.Call) else set()
             found = found and "instruction_stack" in kw
@@ -253,7 +254,7 @@ def generation_order(ctx: Ctx):
     # generator order = configured order
     og = repo.func(SS, "StepSimulation.ordered_instruction_generators")
     ps = [p for p in flow.paths(og.node) if p.kind == "return"]
-    ok = len(ps) == 1 and flow.dump(ps[0].value) == "tuple((self.instruction_generators[ig_id] for ig_id in self.instruction_generator_order))"
+    ok = flow.values_match(ps, "tuple((self.instruction_generators[ig_id] for ig_id in self.instruction_generator_order))")
     ctx.check(ok, "D3", "ORD.generation", "generators are taken in instruction_generator_order", og, why_bad=f"{flow.dump(ps[0].value)[:120] if ps else '?'}",
               construct="ordered_instruction_generators")
     for qn in ("StepSimulation.from_tuple", "StepSimulation.update_instruction_generators"):
